@@ -1281,7 +1281,7 @@ class TexArgs(list):
         self.extend(args)
 
     def __deepcopy__(self, memo):
-        return TexArgs(copy.deepcopy(self.all, memo))
+        return TexArgs(copy.deepcopy(list(self), memo))
 
     def __coerce(self, arg):
         if isinstance(arg, str) and not arg.isspace():
@@ -1324,7 +1324,9 @@ class TexArgs(list):
         >>> arguments[4]
         BraceGroup('arg4')
         """
-        for arg in list(args):
+        # parse everything first: a malformed string must not leave the list
+        # half extended
+        for arg in [self.__coerce(arg) for arg in args]:
             self.append(arg)
 
     def insert(self, i, arg):
